@@ -15,7 +15,8 @@ Deliberately small subset; anything else is REFUSED (a refusal = broken tie, rep
                np.cos(X)/np.sin(X) -> the two components `X_c`, `X_s` of a unit-vector parameter,
                `self.meta.get('include', True)` pattern -> `withInclude include …`,
                constructors `cls(...)`/`RegionBoundingBox(...)` -> `BBox.mk? …`, `slice(a, b)`,
-               `RegionBoundingBox.from_float(a, b, c, d)` -> `BBox.fromFloat a b c d`, tuples, None.
+               `RegionBoundingBox.from_float(a, b, c, d)` -> `BBox.fromFloat a b c d`, tuples, None,
+               `np.subtract(a, b, dtype=float)` -> `a - b`.
 
 Each translated function becomes `def <name> (params in alphabetical order) : <type> := <expr>` in
 `lean/RegionsVerif/Gen/Formulas.lean`; `Bridge/Formulas.lean` proves each equal to the hand-written
@@ -174,6 +175,10 @@ class Tr:
             return f'(Slice.mk {self.expr(args[0])} {self.expr(args[1])})'
         if f == 'np.logical_not' and len(args) == 1:
             return f'(¬ {self.expr(args[0])})'
+        # np.subtract(a, b, dtype=float): the difference, formed in float64 (exact in the model)
+        if (f == 'np.subtract' and len(args) == 2 and len(n.keywords) == 1 and n.keywords[0].arg == 'dtype'
+                and isinstance(n.keywords[0].value, ast.Name) and n.keywords[0].value.id == 'float'):
+            return f'({self.expr(args[0])} - {self.expr(args[1])})'
         raise Refuse(f'call {f}')
 
     # ------------------------------------------------------------ statements
